@@ -34,9 +34,9 @@ CHECKS = {
  "C08": dict(engine="proptest", technique="exhaustive enumeration (names, run numbers, boards x chips x channels) against a reference grammar and bijection counting, plus proptest for non-ASCII / other lengths",
    text="Every 4-byte name over an alphabet (all 128^4 ASCII strings in thorough) and other lengths through all 13 name parsers against a reference grammar; accepted names injective; for every run number 0..=20000 and extremes the wire map is a bijection onto 256 wires or all-Err, the PWB placement has exactly 64 boards on 64 cells or all-Err, the pad map is a bijection onto 18432 pads; simulation == run 5000; wire/pad-column association equals geometry.",
    note="Geometry association is read through the verif-hooks feature (wire_to_pad_column / pad_column_to_wires); golden board tables trusted.", ref="DESIGN.md section 4 C08"),
- "C09": dict(engine="proptest", technique="property-based robustness testing (proptest): junk bank lists, realistic and forward-model events, CRC-valid extreme edits; catch_unwind + finiteness oracle; both overflow-check profiles",
+ "C09": dict(engine="proptest", technique="property-based robustness testing (proptest): junk bank lists, realistic and forward-model events, CRC-valid extreme edits; catch_unwind + finiteness oracle; both overflow-check profiles; thorough tier adds coverage-guided fuzzing (honggfuzz) of a byte-driven event generator",
    text="No generated bank list makes event building, timestamp(), avalanches() or vertex() panic, and every returned avalanche/vertex is finite, in builds with and without overflow checks; generated: junk banks, hit-pattern events, forward-model annihilations, and events re-encoded with valid CRCs/baselines after extreme edits (i16/ADC limits, waveform lengths 64..703 (65533 thorough), requested_samples 0/1/100/101/511, all 79 channels, full wire ring, duplicated/dropped/foreign/corrupted banks, all calibration eras).",
-   note="Aborts / stack overflows are not observable through catch_unwind (they end the check with exit 2).", ref="DESIGN.md section 4 C09"),
+   note="An abort / stack overflow kills the process: the check then replays the per-worker breadcrumb cases in fresh processes and reports the one that dies again as the violation.", ref="DESIGN.md section 4 C09"),
  "C10": dict(engine="proptest", technique="model-based testing: slot-by-slot reference model of the event's signal arrays (own calibration reader) compared through a read-only hook; single-fault injection; hook-free single-pulse variant",
    text="For generated events over all boards/chips/channels, run eras and bank orders the wire and pad signal arrays equal an independent model exactly (slot, delay, baseline, gain by f64 bits), the timestamp is the TRG field, fault-free events are accepted exactly when all maps/calibrations exist and every injected single inconsistency (14 kinds) is rejected; a hook-free variant checks wire, time bin and pad row of single pulses through avalanches().",
    note="Uses verif-hooks accessors; calibration files parsed with the same serde crates as the library; header-only duplicate packets are out of scope (see DESIGN).", ref="DESIGN.md section 4 C10"),
@@ -49,7 +49,7 @@ CHECKS = {
  "C13": dict(engine="proptest", technique="metamorphic testing: all 31 rotations by pad columns and the z mirror applied to calibrated signals, bit-exact comparison of avalanche multisets",
    text="For hit-pattern, block (every block length, seam-straddling, two blocks), forward-model and full-ring signal sets, every rotation maps the avalanche multiset onto itself bit for bit and the mirror negates z within 1e-9 m with identical wires/times/amplitudes; pad-amplitude ties are detected and set aside for the mirror. Full ring = known finding D4 (reported as KNOWN-FINDING, mirror still checked behind it).",
    note="Events are built with the event_from_signals hook; avalanches() is the public API.", ref="DESIGN.md section 4 C13"),
- "C14": dict(engine="proptest", technique="property-based robustness testing over degenerate point-set families and helix pitch decades; catch_unwind + finiteness/range oracle; both overflow-check profiles",
+ "C14": dict(engine="proptest", technique="property-based robustness testing over degenerate point-set families and helix pitch decades; catch_unwind + finiteness/range oracle; both overflow-check profiles; thorough tier adds coverage-guided fuzzing (honggfuzz) of quantised point sets",
    text="cluster_spacepoints, Track::try_from and find_vertices return on generated point sets (10 families incl. exactly/nearly collinear with perturbation 1e-18..1e-2, repeated, equal radius, vertical, circles through the origin, dyadic grids), on direct fits of every family, and on hook-built track sets over all pitch decades with ties; returned tracks/vertices are finite with parameters in [-pi, pi].",
    note="Continuous domain: families and decades are counted so gaps are visible, but measure-zero NaN sets can be missed.", ref="DESIGN.md section 4 C14"),
  "C15": dict(engine="proptest", technique="invariant checking over generated multisets: partition (multiset equality by bits), minimum size, single-linkage connectivity (union-find), vertex partition",
@@ -105,6 +105,7 @@ def main():
         "engines": [
             {"name": "vcheck", "path": "/verif/harness/vcheck", "serves_properties": sorted(CHECKS), "kind_free_text": "proptest 1.11 driven from a binary: seeded runners on 16 worker threads, shrinking, replay files, evidence accounting"},
             {"name": "libfuzzer", "path": "/verif/harness/fuzz", "serves_properties": [p for p in ["C01","C02","C03","C04","C05","C06","C07"] if p in CHECKS], "kind_free_text": "cargo-fuzz/libFuzzer targets calling the same differential oracles (detdiff crate); detector crate only"},
+            {"name": "honggfuzz", "path": "/verif/harness/hfuzz", "serves_properties": [p for p in ["C09","C11","C14","C15"] if p in CHECKS], "kind_free_text": "honggfuzz (stable toolchain) targets `event` and `points`: coverage-guided fuzzing of the physics crate through byte-driven structured generators (vcheck::hfsupport); thorough tier only"},
             {"name": "oracles", "path": "/verif/harness/oracles", "serves_properties": sorted(CHECKS), "kind_free_text": "independent encoders, reference validators, bitwise CRC-32C, reference FIFO scanner"},
         ],
         "checks": checks,
